@@ -842,10 +842,19 @@ async fn build_authoritative_response(
         }
     };
 
+    // A delegation's NS records in place of an answer make this a referral.
+    let is_referral = answers.as_ref().is_some_and(|answers| {
+        answers.iter().next().is_some_and(|r| {
+            r.record_type() == RecordType::NS
+                && query.query_type() != RecordType::NS
+                && query.query_type() != RecordType::ANY
+        })
+    });
+
     #[cfg_attr(not(feature = "__dnssec"), allow(unused_variables))]
     let (ns, soa) = if let Some(answers) = &answers {
-        // SOA queries should return the NS records as well.
-        if query.query_type().is_soa() {
+        // SOA queries should return the NS records as well, a referral only has the cut's NS.
+        if query.query_type().is_soa() && !is_referral {
             // This was a successful authoritative lookup for SOA:
             //   get the NS records as well.
 
@@ -992,12 +1001,6 @@ async fn build_authoritative_response(
         if let Some(adds) = lookup_records.take_additionals() {
             message.additionals.extend(adds.iter().cloned());
         }
-
-        let is_referral = lookup_records.iter().next().is_some_and(|r| {
-            r.record_type() == RecordType::NS
-                && query.query_type() != RecordType::NS
-                && query.query_type() != RecordType::ANY
-        });
 
         if is_referral {
             // the zone is not an authority for names at or below the zone cut
